@@ -463,6 +463,22 @@ Definition nested_replace (s : est) (ins_id : str) (new comment : str) : est * o
   | _ => (s, SkippedN)
   end.
 
+(* where new text anchored on run au goes: next to the run itself when it is a direct child of its paragraph; next to the tracked-change
+   wrapper when the run is the wrapper's outermost child on that side (fix D59: a w:ins is never placed inside another wrapper's
+   edge); otherwise the model refuses (finding D34) *)
+Fixpoint edge_wrapper (uid : nat) (before : bool) (ns : list node) : option nat :=
+  match ns with
+  | [] => None
+  | NWrap u _ _ cs :: r =>
+      match (if before then hd_error cs else last_opt cs) with
+      | Some n => if is_run uid n then Some u else edge_wrapper uid before r
+      | None => edge_wrapper uid before r
+      end
+  | _ :: r => edge_wrapper uid before r
+  end.
+Definition place_uid (au : nat) (before : bool) (d : doc) : option nat :=
+  if is_direct au d then Some au
+  else fold_left (fun acc p => match acc with Some _ => acc | None => edge_wrapper au before (p_nodes p) end) (doc_paras d) None.
 (* _apply_single_edit_indexed. use_clean: the offsets refer to the accepted-view map (active_mapper) *)
 Definition apply_indexed (s : est) (use_clean : bool) (start : nat) (target new comment : str) (o : option op) : est * outcome :=
   let sp := if use_clean then match s_clean s with Some m => m | None => s_raw s end else s_raw s in
@@ -497,8 +513,9 @@ Definition apply_indexed (s : est) (use_clean : bool) (start : nat) (target new 
       match a with
       | None => (set_eng s (with_doc e d1), Skipped)
       | Some au =>
-        if negb (is_direct au d1) then (s, Outside 2)          (* D34: the anchor sits inside a tracked change *)
-        else
+        match place_uid au before d1 with
+        | None => (s, Outside 2)          (* D34: the anchor sits inside a tracked change, away from its edge *)
+        | Some pu =>
           let e1 := with_doc e d1 in
           let style := if before then run_rpr au d1
                        else match next_run au d1 with
@@ -506,7 +523,7 @@ Definition apply_indexed (s : est) (use_clean : bool) (start : nat) (target new 
                             | _ => run_rpr au d1 end in
           if inl then
             let '(e2, ins) := ins_inline e1 new style false in
-            let e3 := if before then place_before e2 au ins else place_after e2 au ins in
+            let e3 := if before then place_before e2 pu ins else place_after e2 pu ins in
             (set_eng s (attach e3 (node_uid ins) (node_uid ins) comment), Applied)
           else
             match para_rec au d1 with
@@ -516,10 +533,11 @@ Definition apply_indexed (s : est) (use_clean : bool) (start : nat) (target new 
               match oi with
               | None => (set_eng s e2, Applied)
               | Some ins =>
-                let e3 := if before then place_before e2 au ins else place_after e2 au ins in
+                let e3 := if before then place_before e2 pu ins else place_after e2 pu ins in
                 (set_eng s (attach e3 (node_uid ins) (node_uid ins) comment), Applied)
               end
             end
+        end
       end
   | _ =>
       let '(d1, work, modif) := resolve (e_doc e) sp start (start + ln) in
